@@ -1,6 +1,7 @@
 """C02 — client-level check (monitors on the real client through H-client; Lean obligations from Props/C02.lean)."""
 from vlib import *
 import client_check as CC
+import stream_check as SC
 import sender_check
 
 
@@ -17,6 +18,9 @@ def run(ctx):
     found_s = replies_check.run(ctx, 200 if ctx.tier == "quick" else 20000) or found_s
     ctx.cov["rule"] += "; plus lock-step of the real async_sender (mock service) and detail::replies against their Lean models"
     found = found_s or CC.report(ctx, "C02", fails)
+    # stream level (real autoconnect_stream over a scripted socket/resolver/clock): operations end with ok / try_again / aborted only
+    found = SC.phase(ctx, "C02", 300 if ctx.tier == "quick" else 6000, 150) or found
+    ctx.cov["rule"] += "; plus H-stream scenarios: the real read_op/write_op/reconnect_op never surface a transport error to the layer above"
     report_broken_ties(ctx, found)
     if ctx.tier == "thorough" and not ctx.ties_broken:
         for m, msg in leanchecker(ctx.lean.get("modules", [])):
